@@ -32,10 +32,15 @@ type params struct {
 	watch   string // none | early | twice | late | unwatch | parent-watch
 	respawn string // none | onkill-spawn | onkilled-respawn | outsider-actorof | late-spawn-during-stop (an outside goroutine spawns a top-level actor while the whole system is being stopped)
 	owns    bool   // dying actors own a subscription and a Loop job
+	fails   string // "" | while-draining: the first child of the target is busy with mail queued behind, one of which makes it fail after the target has begun to stop
 }
 
 func (p params) name() string {
-	return fmt.Sprintf("%s/kill=%s/poison=%v/extra=%s/watch=%s/respawn=%s/owns=%v", p.shape, p.target, p.poison, p.extra, p.watch, p.respawn, p.owns)
+	n := fmt.Sprintf("%s/kill=%s/poison=%v/extra=%s/watch=%s/respawn=%s/owns=%v", p.shape, p.target, p.poison, p.extra, p.watch, p.respawn, p.owns)
+	if p.fails != "" {
+		n += "/fails=" + p.fails
+	}
+	return n
 }
 
 func under(path, root string) bool { return path == root || strings.HasPrefix(path, root+"/") }
@@ -66,6 +71,15 @@ func scenario(p params, bounds []int) *vexp.Scenario {
 			nodes := shapes[p.shape]
 			scripts := map[string]*vsys.Script{}
 			respawned := 0
+			failer, released := "", false
+			if p.fails != "" {
+				for _, n := range nodes {
+					if parentOf(n) == p.target {
+						failer = n
+						break
+					}
+				}
+			}
 			for _, n := range nodes {
 				n := n
 				s := &vsys.Script{Name: n[strings.LastIndex(n, "/")+1:]}
@@ -87,6 +101,16 @@ func scenario(p params, bounds []int) *vexp.Scenario {
 				if p.respawn == "onkill-spawn" && n == p.target {
 					s.OnKill = func(a *vsys.Act, ctx vivid.ActorContext, m *vivid.OnKill) {
 						a.SpawnChild(ctx, &vsys.Script{Name: "late"})
+					}
+				}
+				if n == failer {
+					s.OnMsg = func(a *vsys.Act, ctx vivid.ActorContext, m vsys.Msg) {
+						switch m.ID {
+						case "hold":
+							vrt.Block(vrt.KYield, 0, "held handler of "+failer, func() bool { return released })
+						case "boom":
+							panic("scripted failure while draining")
+						}
 					}
 				}
 				scripts[n] = s
@@ -206,8 +230,20 @@ func scenario(p params, bounds []int) *vexp.Scenario {
 					}
 				})
 			}
+			if failer != "" {
+				// the child is inside a handler with a failing message queued behind it; its parent is then told to stop (a poison
+				// kill reaches the child behind that message), and only then does the child get to the failing message: the
+				// decision about its failure (the default: stop) is taken by a supervisor that is itself stopping
+				w.Sys.Tell(w.Ref(failer), vsys.Msg{ID: "hold"})
+				vrt.QuiesceNoTimers()
+				w.Sys.Tell(w.Ref(failer), vsys.Msg{ID: "boom"})
+			}
 			w.Sys.Kill(tref, p.poison, "driver")
 			vrt.QuiesceNoTimers()
+			if failer != "" {
+				released = true
+				vrt.QuiesceNoTimers()
+			}
 
 			// ---------------- oracle ----------------
 			killRoot := p.target
@@ -464,6 +500,13 @@ func build(tier string) []*vexp.Scenario {
 			}
 		}
 	}
+	// a descendant that fails on queued mail after its (poison-)killed parent has begun to stop
+	for _, sh := range []string{"chain3", "mixed", "fan"} {
+		for _, poison := range []bool{false, true} {
+			out = append(out, scenario(params{shape: sh, target: "/x", poison: poison, extra: "none", watch: "none", respawn: "none", fails: "while-draining"}, bounds))
+		}
+	}
+	out = append(out, scenario(params{shape: "chain3", target: "/x/y", poison: true, extra: "none", watch: "none", respawn: "none", fails: "while-draining"}, bounds))
 	// a spawn racing the kill of its parent (here: the root, through System.Stop), message level and inside package actor
 	for _, sh := range []string{"chain3", "mixed"} {
 		q := params{shape: sh, target: shapes[sh][len(shapes[sh])-1], extra: "none", watch: "none", respawn: "late-spawn-during-stop"}
